@@ -155,6 +155,8 @@ type Step struct {
 	// Reexec > 0: op "reexec" binds and executes again the statement prepared by step Reexec-1 (an earlier
 	// extended-protocol SELECT), without a new Parse
 	Reexec int `json:"reexec,omitempty"`
+	// ReOp: the op of the re-executed statement when it is not a SELECT (update | delete | insert with ON CONFLICT)
+	ReOp string `json:"re_op,omitempty"`
 	// statement shapes of c04.go (GenProgStep): op insert with ON CONFLICT, op update with Assigns / Where,
 	// op delete, op insert-select
 	OnConflict string   `json:"on_conflict,omitempty"` // insert: "" | "nothing" (ON CONFLICT (id) DO NOTHING) | "nothing-bare" (no target) | "update"
